@@ -114,9 +114,11 @@ def scan(fn, by_name, seen=None, depth=0):
             recv = n.func.value
             if root_name(recv) in rooted:
                 name = n.func.attr
-                if name in READ_ONLY or is_constructor(n):
+                if is_constructor(n):
                     continue
-                cands = by_name.get(name, [])
+                cands = by_name.get(name, [])           # amaranth_soc methods of that name are always scanned, never trusted
+                if not cands and name in READ_ONLY:
+                    continue
                 if not cands:
                     reasons.append(f"line {n.lineno}: call `{ast.unparse(n.func)}()` of a method unknown to the scan")
                     continue
